@@ -298,26 +298,65 @@ func c05Marshal(c *Ctx) {
 		}
 	}
 	r.Check(okBefore, "C05.2", "MarshalClientHelloNoECH:update-before-output", c.Pos(call), "padding is sized before any byte is emitted", "bytes are emitted before the padding length is decided")
-	// duplicates rejected
-	dupErr := false
+	// duplicates rejected: inside the loop over the extensions, the outcome "a padding
+	// extension was already seen" of a nil test of the tracking variable leaves the function
+	// with an error, and the tracking variable is stored only behind the other outcome.
+	dupErr, dupWhy := false, "no test of an already-seen padding extension inside the loop over uconn.Extensions"
+	var loop *ast.RangeStmt
 	ast.Inspect(fn.Body, func(n ast.Node) bool {
-		is, ok := n.(*ast.IfStmt)
-		if !ok {
-			return true
-		}
-		if op, ok := an.BinaryWith(an.Unparen(is.Cond), func(e ast.Expr) bool {
-			id, ok := an.Unparen(e).(*ast.Ident)
-			return ok && an.TypeName(info.TypeOf(id)) == "UtlsPaddingExtension"
-		}, func(e ast.Expr) bool { return an.IsNilIdent(info, e) }); ok && op == token.EQL && is.Else != nil {
-			if eb, ok := is.Else.(*ast.BlockStmt); ok && len(eb.List) > 0 {
-				if rs, ok := eb.List[len(eb.List)-1].(*ast.ReturnStmt); ok && len(rs.Results) == 1 && !an.IsNilIdent(info, rs.Results[0]) {
-					dupErr = true
-				}
-			}
+		if rs, ok := n.(*ast.RangeStmt); ok && loop == nil && an.FieldSel(info, an.Unparen(rs.X), "UConn", "Extensions") {
+			loop = rs
 		}
 		return true
 	})
-	r.Check(dupErr, "C05.2", "MarshalClientHelloNoECH:duplicate-padding-rejected", c.Pos(fn.Decl), "a second padding extension makes marshalling fail", "a spec with two padding extensions is no longer rejected")
+	if loop != nil {
+		inLoop := func(n ast.Node) bool { return n != nil && loop.Body.Pos() <= n.Pos() && n.End() <= loop.Body.End() }
+		var tracked types.Object
+		pass, fail, _ := condEdges(fn, func(cond ast.Expr) (bool, bool) {
+			if !inLoop(cond) {
+				return false, false
+			}
+			var v types.Object
+			op, ok := an.BinaryWith(an.Unparen(cond), func(e ast.Expr) bool {
+				id, ok := an.Unparen(e).(*ast.Ident)
+				if ok && an.TypeName(info.TypeOf(id)) == "UtlsPaddingExtension" {
+					v = objOf(info, id)
+					return true
+				}
+				return false
+			}, func(e ast.Expr) bool { return an.IsNilIdent(info, e) })
+			if !ok || (op != token.EQL && op != token.NEQ) {
+				return false, false
+			}
+			tracked = v
+			return true, op == token.EQL
+		})
+		if len(fail) > 0 && tracked != nil {
+			dupErr, dupWhy = true, ""
+			for _, fe := range fail {
+				if ok, why := failEdgeExits(fn, fe, nil); !ok {
+					dupErr, dupWhy = false, "a second padding extension does not make marshalling fail: "+why
+				}
+			}
+			nStores := 0
+			for _, h := range fn.FindNodes(an.AssignsTo(func(e ast.Expr) bool {
+				id, ok := an.Unparen(e).(*ast.Ident)
+				return ok && objOf(info, id) == tracked
+			})) {
+				if !inLoop(h.N) {
+					continue
+				}
+				nStores++
+				if !fn.MustPass(h.P, nil, pass) {
+					dupErr, dupWhy = false, "the padding extension is recorded without testing that none was seen before"
+				}
+			}
+			if nStores == 0 {
+				dupErr, dupWhy = false, "the loop never records the padding extension it found"
+			}
+		}
+	}
+	r.Check(dupErr, "C05.2", "MarshalClientHelloNoECH:duplicate-padding-rejected", c.Pos(fn.Decl), "a second padding extension makes marshalling fail", "a spec with two padding extensions is no longer rejected ("+dupWhy+")")
 	r.Floor("C05.2", 6)
 }
 
@@ -332,7 +371,7 @@ func c05FromRaw(c *Ctx) {
 	found := false
 	for _, h := range fn.FindNodes(an.CallTo(info, Mod, "", "AlwaysPadToLen")) {
 		call := h.N.(*ast.CallExpr)
-		be, ok := an.Unparen(call.Args[0]).(*ast.BinaryExpr)
+		be, ok := an.Unparen(inlineLocal(fn, call.Args[0])).(*ast.BinaryExpr)
 		okArg := false
 		if ok && be.Op == token.SUB {
 			if k, ok := an.ConstInt(info, be.Y); ok && k == 5 {
